@@ -155,13 +155,16 @@ PROPS.update({
                     extra={"assumptions": ["partial: 'returns within bounded time' and client recovery after the fault are decided by the fault-injection scenarios (every cut offset of recorded sessions), not by a theorem",
                                            "the operating system reports a cut connection to Read/Write (or the peer's FIN/RST arrives)"]}),
     "C11": mpx_prop("C11", ["serve_iff", "handlers_only_if_negotiated", "refused_never_served", "unnegotiated_never_served", "refusal_returns_error",
-                            "dispatch_total", "unknown_channel_dropped", "hostile_frames_confined", "unrepaired_refusal_served"],
+                            "dispatch_total", "unknown_channel_dropped", "hostile_frames_confined", "unrepaired_refusal_served",
+                            "line_bounded", "line_accepts", "line_decided", "chunked_read_same", "chunked_read_short", "alloc_bounded"],
                     ev("conn_handshakeAsServer", "conn_run", "conn_receiveMessage", "conn_receiveOpen", "conn_receiveClose", "conn_receiveData",
-                       "conn_receiveWindow", "reader_read"),
+                       "conn_receiveWindow", "reader_read", "reader_readLine") + ["SpecVerif.Ties.protocolLine_tie", "SpecVerif.Ties.maxReadChunk_tie"],
                     [scen("c11", "{bin}/mpxfault", "c11", "{seed}", "{tier}")],
                     ["mpxfault"],
                     extra={"assumptions": ["message payload parsing is total and memory-safe (C02)",
-                                           "partial: resource exhaustion by a peer announcing huge frames is bounded only by the 4 GiB frame-size field"]}),
+                                           "memory held for a peer is bounded by the bytes it actually delivered plus one 1 MiB chunk (alloc_bounded); there is no handshake deadline: a peer that sends fewer than len(ProtocolLine) bytes and idles keeps its own connection open"],
+                           "audit_imports": ["SpecVerif.Props.C11", "SpecVerif.TiesMpx", "SpecVerif.Ties"],
+                           "lean_targets": ["SpecVerif.Props.C11", "SpecVerif.TiesMpx", "SpecVerif.Ties"]}),
     "C19": mpx_prop("C19", ["backoff_bounds", "backoff_monotone", "inv_reachable", "exactly_one_flag", "conns_bounded", "closed_terminal",
                             "close_idempotent", "no_conn_after_close", "no_dial_after_close", "ondemand_redials", "auto_rearms"],
                     ev("client_Close", "client_conn", "client_onConnClosed", "client_onConnChannelsReached", "client_connect", "client_connect1",
